@@ -1,5 +1,6 @@
 import ChythonModel.Model.C05Rules
 import ChythonModel.Model.C05Thiele
+import ChythonModel.Model.C05Search
 import ChythonModel.Spec.Kekule
 /-!
 Line-protocol driver for C05.
@@ -15,6 +16,9 @@ Line-protocol driver for C05.
 `tnf <molK> k (<len> <atoms…>)×k`                  → `freak` | `<0|1> | <mol wire>`     (`thieleNoFix`)
 `thr <molK> <molT> k (<len> <atoms…>)×k`          → `ok` | `reject`                   (`aromatisedOnlyEligible`)
 `fix <mol> r (c (p (<q> <n>)×p)×c)×r`             → `raise` | `<faithful> <keep> <seen…> | <mol wire>` (`fixRings` over the regenerated table)
+`ks <buffer_size> <limit> k (<atom> <deg> <nbrs…>)×k d <double_bonded…> p <pyrroles…>`
+                                                   → `<done|raise|crash:<Exc>|more> | <n>,<m>,<b> … ; …` (`kekuleComponent`:
+                                                     the yielded paths of `_kekule_component` in order, verbatim)
 -/
 open ChythonModel.Py ChythonModel.Model ChythonModel.Model.C05 ChythonModel.Model.C05T ChythonModel.Spec.Kekule
 
@@ -116,6 +120,33 @@ def parseMaps (xs : List Int) : Option (List (List (List (Nat × Nat))) × List 
 def showKind : RingKind → String
   | .skip => "skip" | .benzene => "benzene" | .tetra => "tetra" | .pyrrole n => s!"pyrrole:{n}" | .freak => "freak"
 
+def parseAdj : Nat → List Int → Option (Adj × List Int)
+  | 0, rest => some ([], rest)
+  | k + 1, a :: d :: rest =>
+    if d < 0 ∨ rest.length < d.toNat then none
+    else (parseAdj k (rest.drop d.toNat)).map fun (tl, r) => ((a.toNat, (rest.take d.toNat).map Int.toNat) :: tl, r)
+  | _ + 1, _ => none
+
+def showStatus : C05S.Status → String
+  | .done => "done" | .raised => "raise" | .crashed e => "crash:" ++ e | .more => "more"
+
+def showPath (p : C05S.Path) : String := " ".intercalate (p.map fun e => s!"{e.1},{e.2.1},{e.2.2}")
+
+def handleKs (xs : List Int) : String :=
+  match xs with
+  | buf :: limit :: k :: rest =>
+    match parseAdj k.toNat rest with
+    | some (rings, d :: rest1) =>
+      if d < 0 ∨ rest1.length < d.toNat then "badwire" else
+      match rest1.drop d.toNat with
+      | p :: rest2 =>
+        if rest2.length != p.toNat then "badwire" else
+        let (ys, st) := C05S.kekuleComponent rings ((rest1.take d.toNat).map Int.toNat) (rest2.map Int.toNat) buf.toNat limit.toNat
+        showStatus st ++ " | " ++ " ; ".intercalate (ys.map showPath)
+      | [] => "badwire"
+    | _ => "badwire"
+  | _ => "badwire"
+
 def handle (line : String) : String :=
   match words line with
   | [] => "empty"
@@ -210,6 +241,7 @@ def handle (line : String) : String :=
             | some s => s!"{if fixFaithful m maps then 1 else 0} {if s.keep then 1 else 0} {commas (sortNats s.seen)} | {s.mol.render}"
           | _ => "badwire"
         | none => "badwire"
+      | "ks" => handleKs xs
       | _ => "badop"
 
 def main : IO Unit := ChythonModel.Py.runDriver handle
